@@ -202,4 +202,59 @@ theorem init_ok (g : GslbConf) (bc : TableConf) : ReleaseOk (balTableInit g bc).
       · rw [hempty s0 hs0] at hbs; simp at hbs
     · rw [hempty s hs] at hbs; simp at hbs
 
+theorem updLoop_keys (old : List Backend) (m : List BConf) :
+    (∀ b ∈ (updLoop old m).1, ∃ c ∈ m, c.key = b.key) ∧
+    (∀ c ∈ m, (∃ b ∈ (updLoop old m).1, b.key = c.key) ∨ c ∈ (updLoop old m).2.2) := by
+  induction old generalizing m with
+  | nil => simp [updLoop]
+  | cons b r ih =>
+    unfold updLoop
+    cases hf : m.find? (fun c => c.key == b.key) with
+    | some c0 =>
+      obtain ⟨h1, h2⟩ := ih (m.filter (fun d => d.key != b.key))
+      simp only []
+      have hc0 := List.find?_some hf
+      have hc0m := List.mem_of_find?_eq_some hf
+      refine ⟨fun x hx => ?_, fun c hc => ?_⟩
+      · rcases List.mem_cons.mp hx with rfl | hx
+        · exact ⟨c0, hc0m, by simpa [Backend.key] using hc0⟩
+        · obtain ⟨c, hc, hk⟩ := h1 x hx
+          exact ⟨c, (List.mem_filter.mp hc).1, hk⟩
+      · by_cases hk : c.key = b.key
+        · exact Or.inl ⟨_, List.mem_cons_self, by simpa [Backend.key] using hk.symm⟩
+        · have hcf : c ∈ m.filter (fun d => d.key != b.key) := List.mem_filter.mpr ⟨hc, by simpa using hk⟩
+          rcases h2 c hcf with ⟨x, hx, hxk⟩ | hr
+          · exact Or.inl ⟨x, List.mem_cons_of_mem _ hx, hxk⟩
+          · exact Or.inr hr
+    | none =>
+      obtain ⟨h1, h2⟩ := ih m
+      simp only []
+      exact ⟨h1, h2⟩
+
+theorem confMap_keys (conf : List BConf) (k : String) :
+    (∃ c ∈ confMap conf, c.key = k) ↔ (∃ c ∈ conf, c.key = k) := by
+  constructor
+  · rintro ⟨c, hc, hk⟩; exact ⟨c, confMap_sub conf c hc, hk⟩
+  · unfold confMap
+    have gen : ∀ (l acc : List BConf), ((∃ c ∈ acc, c.key = k) ∨ (∃ c ∈ l, c.key = k)) →
+        ∃ c ∈ l.foldl (fun m c => m.filter (fun d => d.key != c.key) ++ [c]) acc, c.key = k := by
+      intro l
+      induction l with
+      | nil => intro acc h; rcases h with h | ⟨c, hc, _⟩; exact h; simp at hc
+      | cons x r ih =>
+        intro acc h
+        simp only [List.foldl_cons]
+        apply ih
+        by_cases hx : x.key = k
+        · exact Or.inl ⟨x, by simp, hx⟩
+        · rcases h with ⟨c, hc, hk⟩ | ⟨c, hc, hk⟩
+          · refine Or.inl ⟨c, List.mem_append_left _ (List.mem_filter.mpr ⟨hc, ?_⟩), hk⟩
+            have : c.key ≠ x.key := by rw [hk]; exact fun e => hx e.symm
+            simpa using this
+          · rcases List.mem_cons.mp hc with rfl | hc
+            · exact absurd hk hx
+            · exact Or.inr ⟨c, hc, hk⟩
+    intro h
+    exact gen conf [] (Or.inr h)
+
 end BfeVerif.C09
